@@ -615,6 +615,10 @@ fn harvest(seed: u64, corpus: &mut Corpus, notes: &mut Vec<String>) {
         rep: Report::default(),
         mk: &mkc,
         next_name: 0,
+        pending_bad_caps: 0,
+        bad_kp_ids: vec![],
+                forgers: vec![],
+                zombies: vec![],
         tree_qa: None,
         filter_qa: None,
         tap: None,
